@@ -59,3 +59,25 @@ def seqs_to_regex(seqs: Seq(Str, "list", min_len=1), align: Const(False)) -> Str
     loop("loop1", "inv", modifies={"regex": Str}, inv=[regex == regex_prefix(seqs, _i)])
     # position by position: the single observed residue, or the bracketed set of the observed residues (sorted)
     ensures(result == regex_prefix(seqs, len(seqs[0])), name="post[per position: the observed residues]")
+
+
+# ---- colour look-up for labels
+
+@predicate
+def rare(labels, x, min_count):
+    return min_count is not None and occurrences(labels, x) < min_count
+
+
+@contract("pyrepseq.plotting.labels_to_colors_hls", props=["C19"], scope="label_color_calls")
+def labels_to_colors_hls(labels: Seq(Str, "list"), min_count: OneOf(NoneType, Int)):
+    raises(None)
+    ensures(len(result) == len(labels), name="post[one colour per label]")
+    ensures(forall(TInt, TInt, lambda i, j: implies(0 <= i and i < len(labels) and 0 <= j and j < len(labels) and labels[i] == labels[j],
+                                                    same_value(result[i], result[j]))), name="post[equal labels, equal colours]")
+    ensures(forall(TInt, lambda i: implies(0 <= i and i < len(labels), is_black(result[i]) == rare(labels, labels[i], min_count))),
+            name="post[black exactly for labels rarer than min_count]")
+    ensures(forall(TInt, TInt, lambda i, j: implies(
+        0 <= i and i < len(labels) and 0 <= j and j < len(labels) and labels[i] != labels[j]
+        and not rare(labels, labels[i], min_count) and not rare(labels, labels[j], min_count),
+        not same_value(result[i], result[j]))), name="post[distinct labels, distinct colours]")
+    canary(forall(TInt, lambda i: implies(0 <= i and i < len(labels), is_black(result[i]))), name="everything black")
